@@ -482,7 +482,8 @@ def rule_entity(model):
     esc = _escaper(model)
     name = esc.name                      # 'html_quote'
     sc = model.func('DT_HTML', 'dtml_re_class.search')
-    appended = [n for n in own_nodes(sc.node) if isinstance(n, ast.BinOp)
+    appended = [n for n in model.closure_nodes(sc)
+                if isinstance(n, ast.BinOp)
                 and isinstance(n.op, ast.Add)
                 and isinstance(n.right, ast.Constant)
                 and isinstance(n.right.value, str)
@@ -532,7 +533,7 @@ def rule_entity(model):
                       f'quoting modifier as {c.comparators[0].value!r}',
                       node=c, ctx=ren)
     # &dtml.a.b-x;  ->  "x a b"
-    rep = [n for n in own_nodes(sc.node) if isinstance(n, ast.Call)
+    rep = [n for n in model.closure_nodes(sc) if isinstance(n, ast.Call)
            and isinstance(n.func, ast.Attribute)
            and n.func.attr == 'replace' and len(n.args) == 2
            and isinstance(n.args[0], ast.Constant)
